@@ -464,6 +464,30 @@ pub fn run(ctx: &mut Ctx) {
             &mut jobs,
         );
     }
+    // ---- ePC-SAFT with the tabulated permittivity of the solvent given in descending temperature order (the constructor sorts
+    // the table; sorting must not depend on where the solvent stands among the components)
+    {
+        let p = zoo::epc(&["water", "sodium ion", "chloride ion"]);
+        let (recs, bin) = p.records();
+        let mut recs = recs.to_vec();
+        let mut v = serde_json::to_value(&recs[0]).unwrap();
+        v["model_record"]["permittivity_record"]["ExperimentalData"]["data"].as_array_mut().unwrap().reverse();
+        recs[0] = serde_json::from_value(v).unwrap();
+        family_jobs(
+            Family::<ElectrolytePcSaftParameters> {
+                id: "epcsaft:water(unsorted permittivity table)+na+cl".into(),
+                recs,
+                bin: bin.cloned(),
+                build: Arc::new(|p| ResidualModel::ElectrolytePcSaft(ElectrolytePcSaft::new(Arc::new(p)))),
+                build_opts: None,
+                x: arr1(&[0.96, 0.02, 0.02]),
+                tref: 400.0,
+                zero_pad: false,
+            },
+            tier,
+            &mut jobs,
+        );
+    }
     // ---- gc-PC-SAFT (heterosegmented): relabelling through the order of substance names, subset
     for names in [vec!["ethanol", "propane", "1-butanol"], vec!["methyl propanoate", "hexane", "ethanol"]] {
         let n = names.len();
